@@ -3,6 +3,8 @@ import EpdVerif.Lemmas.UcFill
 import EpdVerif.Drivers.Epd4in2
 import EpdVerif.Drivers.Epd7in5b_v2
 import EpdVerif.Drivers.Epd2in9b_v4
+import EpdVerif.Drivers.Epd1in02
+import EpdVerif.Drivers.Epd2in7
 import EpdVerif.Props.C06
 /-!
 # C06 (i), (iv) for SYMBOLIC windows — the window the controller decodes is the requested one
@@ -345,5 +347,129 @@ theorem epd2in9b_v4_part_window (f : Feat) (d : DState) (b : Bytes) (x y w h : N
   rw [e1, e2]
 
 example : (16 % 8 = 0 ∧ 112 % 8 = 0 ∧ 16 + 112 ≤ 128 ∧ 290 + 6 ≤ 296) := by decide
+
+/-! ## epd1in02 (UC8175, 5-byte window block; the window is correct exactly under the coupling
+   "driver believes Quick ⇒ controller in partial mode") -/
+
+/-- UC8175 (5-byte window block): window then old-image data, controller already in partial mode -/
+theorem uc5_window_data (u : Uc) (a b c d e : UInt8) (buf : List UInt8)
+    (hu : u.asleep = false) (hf : u.winFmt = 5) (h14 : u.has14 = false) (hp : u.partialOn = true) :
+    (u.run [Blk.c 0x90 [a, b, c, d, e], .c 0x10 buf]).lastWin
+      = some (a.toNat / 8 * 8, c.toNat, b.toNat / 8 * 8 + 7, d.toNat) ∧
+    (u.run [Blk.c 0x90 [a, b, c, d, e], .c 0x10 buf]).partialOn = true := by
+  simp (config := {decide := true}) only [Uc.run, List.foldl, Uc.feed, Uc.regStep, hu, hf, h14, hp, Uc.dtm, Uc.lastWin, ↓reduceIte,
+    Bool.false_eq_true, List.head?_cons, Option.map_some, and_self]
+
+/-- … entering partial mode first (PartialIn, the two quick waveform tables) -/
+theorem uc5_enter_window_data (u : Uc) (l1 l2 : List UInt8) (a b c d e : UInt8) (buf : List UInt8)
+    (hu : u.asleep = false) (hf : u.winFmt = 5) (h14 : u.has14 = false) :
+    (u.run [Blk.c 0x91 [], .c 0x23 l1, .c 0x24 l2, .c 0x90 [a, b, c, d, e], .c 0x10 buf]).lastWin
+      = some (a.toNat / 8 * 8, c.toNat, b.toNat / 8 * 8 + 7, d.toNat) ∧
+    (u.run [Blk.c 0x91 [], .c 0x23 l1, .c 0x24 l2, .c 0x90 [a, b, c, d, e], .c 0x10 buf]).partialOn = true := by
+  simp (config := {decide := true}) only [Uc.run, List.foldl, Uc.feed, Uc.regStep, hu, hf, h14, Uc.dtm, Uc.lastWin, ↓reduceIte,
+    Bool.false_eq_true, List.head?_cons, Option.map_some, and_self]
+
+open Drivers.Epd1in02 in
+/-- **epd1in02 `update_partial_old_frame`, EVERY byte-aligned window inside the 80 x 128 panel**: the old-
+    image data arrives under the requested window, in partial mode — from any awake controller that
+    is in partial mode whenever the driver believes it is (`refresh = Quick`; the coupling whose
+    breakage by `wake_up` without `sleep` is the listed finding KF-C06-epd1in02) -/
+theorem epd1in02_pold_window (f : Feat) (d : DState) (b : Bytes) (x y w h : Nat)
+    (hx : x % 8 = 0) (hw : w % 8 = 0) (hw0 : 0 < w) (hh0 : 0 < h) (hxw : x + w ≤ 80) (hyh : y + h ≤ 128)
+    (hl : b.length = w / 8 * h)
+    (u : Uc) (hu : u.asleep = false) (hf : u.winFmt = 5) (h14 : u.has14 = false)
+    (hc : d.refresh = .quick → u.partialOn = true) :
+    (u.run (blocksOf ((prog f d (.pold b x y w h)).getD []))).lastWin = some (x, y, x + w - 1, y + h - 1) ∧
+    (u.run (blocksOf ((prog f d (.pold b x y w h)).getD []))).partialOn = true := by
+  have a0 : isBufferSizeOk b w h = true := by
+    simp only [isBufferSizeOk, bufferLen, beq_iff_eq]; rw [hl]; congr 1; omega
+  have a1 : isWindowSizeOk x y w h = true := by
+    simp only [isWindowSizeOk, Bool.and_eq_true, decide_eq_true_eq, beq_iff_eq]
+    exact ⟨⟨⟨hxw, hyh⟩, hx⟩, hw⟩
+  have a2 : decide (x + w ≥ 1) = true := by simp only [decide_eq_true_eq]; omega
+  have a3 : decide (y + h ≥ 1) = true := by simp only [decide_eq_true_eq]; omega
+  have e1 : (u8 x).toNat / 8 * 8 = x := by rw [u8_toNat]; omega
+  have e2 : (u8 (x + w - 1)).toNat / 8 * 8 + 7 = x + w - 1 := by rw [u8_toNat]; omega
+  have e3 : (u8 y).toNat = y := by rw [u8_toNat]; omega
+  have e4 : (u8 (y + h - 1)).toNat = y + h - 1 := by rw [u8_toNat]; omega
+  cases hr : d.refresh with
+  | quick =>
+    have hb : blocksOf ((prog f d (.pold b x y w h)).getD []) =
+        [.c 0x90 [u8 x, u8 (x + w - 1), u8 y, u8 (y + h - 1), 0x00], .c 0x10 (b ++ [])] := by
+      simp only [prog, setPartialMode, setPartialWindow, assertA, a0, a1, a2, a3, hr, Option.getD_some, if_true, ne_eq,
+        not_true_eq_false, if_false, List.nil_append]
+      rfl
+    rw [hb]
+    have k := uc5_window_data u (u8 x) (u8 (x + w - 1)) (u8 y) (u8 (y + h - 1)) 0x00 (b ++ []) hu hf h14 (hc hr)
+    rw [e1, e2, e3, e4] at k
+    exact k
+  | full =>
+    have hb : blocksOf ((prog f d (.pold b x y w h)).getD []) =
+        [.c 0x91 [], .c 0x23 (Gen.Epd1in02.LUT_PARTIAL_UPDATE_WHITE ++ []), .c 0x24 (Gen.Epd1in02.LUT_PARTIAL_UPDATE_BLACK ++ []),
+         .c 0x90 [u8 x, u8 (x + w - 1), u8 y, u8 (y + h - 1), 0x00], .c 0x10 (b ++ [])] := by
+      simp only [prog, setPartialMode, setPartialWindow, setLut, assertA, a0, a1, a2, a3, hr, Option.getD_some, if_true, ne_eq,
+        reduceCtorEq, not_false_eq_true, List.nil_append]
+      rfl
+    rw [hb]
+    have k := uc5_enter_window_data u (Gen.Epd1in02.LUT_PARTIAL_UPDATE_WHITE ++ []) (Gen.Epd1in02.LUT_PARTIAL_UPDATE_BLACK ++ []) (u8 x) (u8 (x + w - 1)) (u8 y) (u8 (y + h - 1)) 0x00 (b ++ []) hu hf h14
+    rw [e1, e2, e3, e4] at k
+    exact k
+
+/-! ## epd2in7 (windowed data command 0x14 with its 8-byte header) -/
+
+theorem andff : ∀ n, n < 512 → n &&& 0xff = n % 256 := by decide +kernel
+
+/-- 2.7in windowed data command 0x14 on an awake controller: header decoded, data stored through the window -/
+theorem uc14_feed (u : Uc) (xh xl yh yl wh wl hh hl : UInt8) (rest : List UInt8) (hu : u.asleep = false) (h14 : u.has14 = true) :
+    (u.feed (.c 0x14 (xh :: xl :: yh :: yl :: wh :: wl :: hh :: hl :: rest))).p1
+      = (storeAt (winPos u.stride2 (word xh xl / 8) (word wh wl / 8) (word yh yl) (word hh hl)) u.p1 rest 0 0).1 ∧
+    (u.feed (.c 0x14 (xh :: xl :: yh :: yl :: wh :: wl :: hh :: hl :: rest))).p2 = u.p2 ∧
+    ((u.feed (.c 0x14 (xh :: xl :: yh :: yl :: wh :: wl :: hh :: hl :: rest))).epis.head?.map fun e => (e.plane, e.count, e.stored, e.win))
+      = some (0, rest.length, (storeAt (winPos u.stride2 (word xh xl / 8) (word wh wl / 8) (word yh yl) (word hh hl)) u.p1 rest 0 0).2,
+          (word xh xl / 8 * 8, word yh yl, word xh xl + word wh wl - 1, word yh yl + word hh hl - 1)) := by
+  simp (config := {decide := true}) only [Uc.feed, Uc.dtmWin, hu, h14, ↓reduceIte, Bool.false_eq_true,
+    List.head?_cons, Option.map_some, and_self]
+
+open Drivers.Epd2in7 in
+theorem epd2in7_part_blocks (f : Feat) (d : DState) (b : Bytes) (x y w h : Nat) :
+    blocksOf ((prog f d (.part b x y w h)).getD []) =
+      [.c 0x14 ([shr8 x 8, u8 (x &&& 0xf8), shr8 y 8, u8 (y &&& 0xff), shr8 w 8, u8 (w &&& 0xf8), shr8 h 8, u8 (h &&& 0xff)] ++ (b ++ []))] := rfl
+
+open Drivers.Epd2in7 in
+/-- **epd2in7 `update_partial_frame`, EVERY byte-aligned window inside the 176 x 264 panel, every buffer of
+    the window's size, any awake controller state** (full strength, all clauses): header = the requested
+    window, buffer byte `k` at row `y + k/(w/8)`, byte column `x/8 + k%(w/8)`, stored exactly once,
+    everything outside and the other plane unchanged -/
+theorem epd2in7_part_window (f : Feat) (d : DState) (b : Bytes) (x y w h : Nat)
+    (hx : x % 8 = 0) (hw : w % 8 = 0) (hw0 : 0 < w) (hh0 : 0 < h) (hxw : x + w ≤ 176) (hyh : y + h ≤ 264)
+    (hl : b.length = w / 8 * h)
+    (u : Uc) (hu : u.asleep = false) (h14 : u.has14 = true) (hwd : u.width = 176) (hsz : u.p1.size = 22 * 264) :
+    let u' := u.run (blocksOf ((prog f d (.part b x y w h)).getD []))
+    (∀ k (hk : k < b.length), u'.p1[winIdx 22 (x / 8) (w / 8) y k]? = some b[k]) ∧
+    (∀ j, (∀ k, k < w / 8 * h → winIdx 22 (x / 8) (w / 8) y k ≠ j) → u'.p1[j]? = u.p1[j]?) ∧
+    u'.p2 = u.p2 ∧
+    (u'.epis.head?.map fun e => (e.plane, e.count, e.stored, e.win)) = some (0, w / 8 * h, w / 8 * h, (x, y, x + w - 1, y + h - 1)) := by
+  intro u'
+  have hu' : u' = u.feed (.c 0x14 (shr8 x 8 :: u8 (x &&& 0xf8) :: shr8 y 8 :: u8 (y &&& 0xff) :: shr8 w 8 :: u8 (w &&& 0xf8)
+      :: shr8 h 8 :: u8 (h &&& 0xff) :: b)) := by
+    show u.run _ = _
+    rw [epd2in7_part_blocks, List.append_nil]
+    rfl
+  rw [and248_id x (by omega) hx, and248_id w (by omega) hw, andff y (by omega), andff h (by omega)] at hu'
+  have k := uc14_feed u (shr8 x 8) (u8 (x &&& 0xf8)) (shr8 y 8) (u8 (y &&& 0xff)) (shr8 w 8) (u8 (w &&& 0xf8))
+    (shr8 h 8) (u8 (h &&& 0xff)) b hu h14
+  rw [and248_id x (by omega) hx, and248_id w (by omega) hw, andff y (by omega), andff h (by omega)] at k
+  have wy : word (shr8 y 8) (u8 (y % 256)) = y := by
+    simp only [Uc.word, shr8, u8_toNat, Nat.shiftRight_eq_div_pow]; omega
+  have wh' : word (shr8 h 8) (u8 (h % 256)) = h := by
+    simp only [Uc.word, shr8, u8_toNat, Nat.shiftRight_eq_div_pow]; omega
+  rw [word_split x (by omega), word_split w (by omega), wy, wh'] at k
+  have s2 : u.stride2 = 22 := by unfold Uc.stride2; rw [hwd]
+  rw [s2] at k
+  have st := storeAt_window 22 (x / 8) (w / 8) y h u.p1 b (by omega) (by omega) (by rw [hsz]; omega) hl
+  rw [hu', k.1, k.2.1, k.2.2, st.1]
+  have e1 : x / 8 * 8 = x := by omega
+  refine ⟨fun k hk => st.2.2.1 k hk, st.2.2.2, rfl, ?_⟩
+  rw [hl, e1]
 
 end EpdVerif.Props.C06
